@@ -28,6 +28,39 @@ def build_overrides(edits, root=None):
     return ov
 
 
+def overrides_from_patch(patch_path, root=None):
+    """apply a stored unified diff to temporary copies of the files it touches (outside /repo and
+    /verif) and return them as in-memory overrides; None if it does not apply on this tree"""
+    import re
+    import shutil
+    import subprocess
+    import tempfile
+    root = root or REPO
+    with open(patch_path) as fh:
+        txt = fh.read()
+    files = sorted(set(re.findall(r"^\+\+\+ b/(\S+)", txt, flags=re.M)))
+    tmp = tempfile.mkdtemp(prefix="nasim_seed_")
+    try:
+        for rel in files:
+            src = os.path.join(root, rel)
+            if not os.path.exists(src):
+                return None
+            os.makedirs(os.path.dirname(os.path.join(tmp, rel)), exist_ok=True)
+            shutil.copy(src, os.path.join(tmp, rel))
+        r = subprocess.run(["patch", "-p1", "-s", "-f", "-d", tmp, "-i", patch_path],
+                           capture_output=True, text=True)
+        if r.returncode != 0:
+            return None
+        ov = {}
+        for rel in files:
+            with open(os.path.join(tmp, rel), encoding="utf-8") as fh:
+                ov[rel] = fh.read()
+            compile(ov[rel], rel, "exec")
+        return ov
+    finally:
+        shutil.rmtree(tmp, ignore_errors=True)
+
+
 def run_rules(pid, overrides):
     """returns (status, checker): status in ok|violation|error"""
     from sa.ctx import Ctx
